@@ -4,9 +4,25 @@
 From Coq Require Import ZArith List Bool.
 From V Require Import Model.Num Model.Status Model.Live Gen.StatusC Proofs.LiveP.
 From V Require Model.Sim Model.SimLoop Proofs.SimResetP.
+From V Require Import Model.Guards Proofs.GuardsP.
 Open Scope Z_scope.
 
-(* guards: a cancel / update / replace is accepted only on an order resting Executable with a known bet id; otherwise the state is
+(* guards of BOTH order classes (BetfairOrder, BetdaqOrder) and all three order types, as a decision table compared exhaustively with the
+   real objects (class x type x every status x bet id known or not x request): a request is accepted only on an order resting Executable with a
+   known bet id and a compatible type, and moves it to the matching transient status; everything else is rejected *)
+Theorem C03_guard_accepts : forall c t st bet r st', guard c t st bet r = Some st' ->
+  st = SExecutable /\ bet = true /\
+  (match r with GCancel | GCancelReduce _ => st' = SCancelling /\ t = TyLimit
+              | GUpdate _ => st' = SUpdating /\ t = TyLimit
+              | GReplace _ => st' = SReplacing /\ (t = TyLimit \/ t = TyLoc) /\ c = OBetfair end).
+Proof. exact guard_accepts. Qed.
+Theorem C03_guard_rejects_in_flight_or_complete : forall c t st bet r, st <> SExecutable -> guard c t st bet r = None.
+Proof. exact guard_rejects_unless_executable. Qed.
+Theorem C03_guard_rejects_without_bet_id : forall c t st r, guard c t st false r = None.
+Proof. exact guard_rejects_without_bet. Qed.
+Print Assumptions C03_guard_accepts.
+
+(* live model: a cancel / update / replace is accepted only on an order resting Executable with a known bet id; otherwise the state is
    untouched (the Python raises OrderUpdateError) - hence no second operation while one is in flight *)
 Theorem C03_request_rejected_without_side_effects : forall s n k p o,
   oget n (ls_orders s) = Some o -> (lo_status o <> SExecutable \/ lo_bet o = None) -> req_other s n k p = s.
